@@ -162,6 +162,9 @@ def _families(ctx: Ctx) -> List[Tuple[str, dict]]:
             for s in c["steps"]:
                 s["items"] = {a["ref"]: rig.gen_item(rng) for a in c["agents"]}
         cases.append(("malformed", c))
+    # the real pipeline: PrimaiteGymEnv.step on UC2 with dyadic weights, random sticky flags and declaration order
+    for k in range(ctx.scale(3, 40)):
+        cases.append(("env", rig.gen_env_case(rng, ctx.scale(40, 128))))
     # the two science.py functions on raw graphs (lists with repeats, dangling names)
     for k in range(ctx.scale(600, 20000)):
         cases.append(("rawgraph", rig.gen_raw_graph(rng)))
@@ -199,7 +202,9 @@ def run(ctx: Ctx):
         ctx.cov["traces_validated_against_impl"] += 1
         fam = name.split(":")[0]
         ctx.count("family:" + fam)
-        if case["family"] == "game":
+        if case["family"] == "env":
+            case = dict(case, **capture["observed"])  # what the real run produced: agents, per-step states and items
+        if case["family"] in ("game", "env"):
             kinds = {rig_kind for a in case["agents"] for rig_kind in (_comp_tag(c) for c in a["comps"])}
             for kd in kinds:
                 ctx.count("comp:" + kd)
@@ -219,12 +224,17 @@ def run(ctx: Ctx):
                           {"family": "oracle", "case": case, "impl": impl})
         if impl == model:
             agree += 1
-            if fam in ("rich", "exh4", "big"):
+            if fam in ("rich", "exh4", "big", "env"):
                 ctx.sample({"case": name, "lines": lines[:10], "answers": model[:3]}, cap=4)
             continue
         if reported >= 5:
             continue
         reported += 1
+        if case["family"] == "env":
+            # re-run what the real pipeline produced through the synthetic surface: if it still disagrees it can be shrunk
+            synth = {"family": "game", "agents": case["agents"], "steps": case["steps"]}
+            if not _diff_case(synth)[0]:
+                case = synth
         small = _shrink(case)
         ok, impl2, model2, i2, lines2, _cap = _diff_case(small)
         if ok:
